@@ -583,12 +583,13 @@ def _root_kinds(t, v, route, out, direct=True):
     if k == "v":
         if v[1][0] == "T":
             return
-        if v[1][0] == "X" and (route == "tab" or (route in TOML_ROUTES and direct)):
-            return  # private-datetime-key class: the tunnel struct is written as a table
+        if v[1][0] == "X" and route == "tab":
+            return  # private-datetime-key class: value.rs TableSerializer::serialize_struct writes the tunnel struct as a table
         out.add("root-not-table"); return
     if k in ("dt", "da", "ti"):
-        if route == "tab" or (route in TOML_ROUTES and direct):
-            return  # idem (behind Some / a newtype toml::Serializer hands over to toml_edit's ValueSerializer)
+        if route == "tab":
+            return  # idem.  (toml::to_string refuses a root date-time like toml_edit's since the repair of
+                    # C06-root-datetime-printed-as-table: toml/src/ser.rs serialize_struct passes the struct name on)
         out.add("root-not-table"); return
     if k == "E":
         vk = t[2][v[1]][1]
@@ -1263,3 +1264,81 @@ def dup_key_case(rng):
     if shape == 4:
         return ("M", ("s",), mt), ("M", [(("S", "outer"), mv), (("S", "other"), ("M", []))])
     return ("S", "S", [("o", ("O", mt)), ("w", ("N", "W", mt))]), ("R", [("O", mv), ("W", mv)])
+
+
+# ---------------------------------------------------------------------------------------------
+# the nested-None family (C07, C13): a None that is NOT handed directly to a struct field / map entry but sits
+# somewhere below one — the shapes behind the repaired defect C07-tryfrom-nested-none-dropped (toml::Value::try_from
+# swallowed the UnsupportedNone of the whole field).  Every route must refuse such a value (unsupported-none); the
+# control shapes (a None directly in a field, also of a struct variant and of a nested struct) must be left out and
+# read back.  Includes Option<Option<_>> (outside the generator's usual universe, inside the Coq theorems').
+# ---------------------------------------------------------------------------------------------
+NESTED_NONE_SHAPES = ["seq", "some-none", "newtype", "tuple", "tuple-struct", "newtype-variant", "tuple-variant", "some-seq",
+                      "map-seq", "map-some", "newtype-newtype", "ctl-field", "ctl-struct-variant", "ctl-nested-struct"]
+
+
+def nested_none_case(rng, shape=None):
+    """-> (ty, v, shape): a struct with one field carrying the shape, wrapped 0..2 levels deep in further containers"""
+    r = rng
+    shape = shape or r.choice(NESTED_NONE_SHAPES)
+    lt = r.choice([("int", "i32"), ("s",), ("b",), ("f64",), ("dt",), ("int", "u64")])
+    g = SerdeGen(r, max_depth=2, allow_unsupported=False)
+    x = lambda: g.value(lt)
+    o = ("O", lt)
+    none, some = ("N",), lambda y: ("O", y)
+    if shape == "seq":
+        t, v = ("L", o), ("L", r.choice([[none], [some(x()), none], [none, some(x())], [some(x()), none, some(x())]]))
+    elif shape == "some-none":
+        t, v = ("O", o), some(none)
+    elif shape == "newtype":
+        t, v = ("N", "W", o), ("W", none)
+    elif shape == "newtype-newtype":
+        t, v = ("N", "W", ("N", "X", o)), ("W", ("W", none))
+    elif shape == "tuple":
+        t, v = ("T", [o, lt]), ("L", [none, x()])
+    elif shape == "tuple-struct":
+        t, v = ("P", "P", [lt, o]), ("L", [x(), none])
+    elif shape == "newtype-variant":
+        t, v = ("E", "E", [("U", "u", None), ("N", "n", o)]), ("E", 1, none)
+    elif shape == "tuple-variant":
+        t, v = ("E", "E", [("T", "t", [o, lt])]), ("E", 0, ("L", [none, x()]))
+    elif shape == "some-seq":
+        t, v = ("O", ("L", o)), some(("L", [some(x()), none]))
+    elif shape == "map-seq":
+        t, v = ("M", ("s",), ("L", o)), ("M", [(("S", "k"), ("L", [some(x())])), (("S", "n"), ("L", [none]))])
+    elif shape == "map-some":
+        t, v = ("M", ("s",), ("N", "W", o)), ("M", [(("S", "k"), ("W", none))])
+    elif shape == "ctl-field":
+        t, v = o, none
+    elif shape == "ctl-struct-variant":
+        t, v = ("E", "E", [("S", "s", [("x", o), ("y", lt)])]), ("E", 0, ("R", [none, x()]))
+    elif shape == "ctl-nested-struct":
+        t, v = ("S", "In", [("x", o), ("y", ("O", o))]), ("R", [none, none])
+    else:
+        raise ValueError(shape)
+    # the carrier: a field of the root struct next to ordinary fields, possibly below another struct / struct variant /
+    # map value / sequence of structs
+    def in_struct(name, t, v):
+        fs = [("a", ("int", "i64")), ("f", t), ("z", ("O", ("s",)))]
+        vs = [("I", r.randrange(-5, 6)), v, r.choice([("N",), ("O", ("S", "t"))])]
+        return ("S", name, fs), ("R", vs)
+    t, v = in_struct("Carrier", t, v)
+    for lvl in range(r.choice([0, 0, 1, 1, 2])):
+        w = r.choice(["struct", "struct-variant", "map", "seq", "some", "newtype"])
+        if w == "struct":
+            t, v = in_struct("Outer%d" % lvl, t, v)
+        elif w == "struct-variant":
+            t, v = ("E", "Ev%d" % lvl, [("V", "s", [("p", t)])]), ("E", 0, ("R", [v]))
+        elif w == "map":
+            if strip_newtypes(t)[0] != "O":      # maps whose values are Options are outside has_type (S4)
+                t, v = ("M", ("s",), t), ("M", [(("S", "m"), v)])
+        elif w == "seq":
+            t, v = ("L", t), ("L", [v])
+        elif w == "some":
+            if t[0] != "O":
+                t, v = ("O", t), ("O", v)
+        else:
+            t, v = ("N", "Nt%d" % lvl, t), ("W", v)
+    if t[0] != "S":
+        t, v = ("S", "Root", [("r", t)]), ("R", [v])
+    return t, v, shape
